@@ -15,6 +15,16 @@
 # is an unknown boolean (a syntactic obligation B.binary_op checks that its body is exactly `(*f)(left, right)`).
 
 STACK = "forall(k, 0, i + 1, 0 <= beg[k] and beg[k] <= end[k] and end[k] <= elements)"
+# Depth of the explicit stack.  B(elements, k) = elements // 2**k (defining axioms below; they have the model 2**k, so
+# assuming them is sound).  Because the SMALLER of the two sub-ranges is always the one pushed on top, the range held
+# at level k has at most B(elements, k) elements; so the helper gives up (returns -1, "failed to sort an array") only
+# if B(elements, maxlevels - 1) >= 2, i.e. for lists of at least 2**maxlevels elements -- never for a list that fits
+# in memory with the library's kMaxLevels = 48.  A change that pushes the larger range breaks HALVING.
+GHOST_B = {"B": (["e", "k"], None)}
+AXIOMS_B = ["B(elements, 0) == elements",
+            "forall(k, 0, maxlevels, B(elements, k + 1) == B(elements, k) // 2)"]
+HALVING = "forall(k, 0, i + 1, end[k] - beg[k] <= B(elements, k))"
+DEPTH_POST = "result == 0 or (result == -1 and B(elements, maxlevels - 1) >= 2)"
 
 K("binary_op", pure=True)
 
@@ -23,7 +33,7 @@ K("quick_sort",
   requires=["maxlevels >= 1"],
   calls={"binary_op": "binary_op"},
   loops={
-      "L0": ["-1 <= i", "i < maxlevels", STACK],
+      "L0": ["-1 <= i", "i < maxlevels", STACK, HALVING],
       "L0.0": ["beg[i] <= low", "low <= high", "high < end[i]"],
       "L0.0.0": ["low <= high", "high <= entry(high)"],
       "L0.0.1": ["low <= high", "low >= entry(low)"],
@@ -31,7 +41,8 @@ K("quick_sort",
       "L0.2": ["mid <= end[i]", "mid >= entry(mid)"],
   },
   auto_inv=False,      # every invariant is written out (no Houdini search: these units are the slowest otherwise)
-  ensures=["result == 0 or result == -1"])
+  ghost=GHOST_B, axioms=AXIOMS_B,
+  ensures=[DEPTH_POST])
 
 INRANGE = "forall(k, 0, elements, 0 <= result[k] and result[k] < elements)"
 
@@ -40,7 +51,7 @@ K("quick_argsort",
   requires=["maxlevels >= 1", INRANGE],
   calls={"binary_op": "binary_op"},
   loops={
-      "L0": ["-1 <= i", "i < maxlevels", STACK, INRANGE],
+      "L0": ["-1 <= i", "i < maxlevels", STACK, HALVING, INRANGE],
       "L0.0": ["beg[i] <= low", "low <= high", "high < end[i]", INRANGE, "0 <= ind and ind < elements"],
       "L0.0.0": ["low <= high", "high <= entry(high)"],
       "L0.0.1": ["low <= high", "low >= entry(low)"],
@@ -48,7 +59,8 @@ K("quick_argsort",
       "L0.2": ["mid <= end[i]", "mid >= entry(mid)"],
   },
   auto_inv=False,
-  ensures=["result == 0 or result == -1"])
+  ghost=GHOST_B, axioms=AXIOMS_B,
+  ensures=[DEPTH_POST])
 # (inside `ensures`, `result` is the returned value; the array parameter of the same name is not mentioned there)
 
 # ---- the kernels
